@@ -473,6 +473,19 @@ theorem unmarshall_fields (lookup : List Char → Option Err) (m : Marshalled) (
     · simp only [Except.ok.injEq] at h; subst h; exact ⟨rfl, hv⟩
   · simp at h
 
+/-- marshalling what was unmarshalled gives the very same record again (naive and UTC): the pair is a
+    fixed point, so a record can be unmarshalled, re-marshalled and passed on any number of times.
+    (`unmarshall` is a function of the record alone: that the implementation neither keeps state nor
+    changes the dict it is given is checked by the correspondence, which unmarshalls one dict repeatedly.) -/
+theorem remarshall_fixpoint (lookup : List Char → Option Err) (f : Fields) (tz : Option (Option (List Char)))
+    (hv : validFields f = true)
+    (htz : tz = none ∨ ((tz = some (some utcName) ∨ tz = some (some utcPlus)) ∧ lookup utcName = none)) :
+    (unmarshall lookup (marshall ⟨f, tz⟩)).map marshall = .ok (marshall ⟨f, tz⟩) := by
+  rcases htz with h | ⟨h | h, hl⟩ <;> subst h
+  · rw [unmarshall_marshall_naive lookup f hv]; rfl
+  · rw [unmarshall_marshall_utc lookup f utcName hv (Or.inl rfl) hl]; rfl
+  · rw [unmarshall_marshall_utc lookup f utcPlus hv (Or.inr rfl) hl]; rfl
+
 /-- `marshall_now()` without an argument marshals the overridden instant (through the
     calendar `cal`), and unmarshalling gives its fields back -/
 theorem marshall_now_override (cal : Int → Fields) (lookup : List Char → Option Err) (c : Int)
